@@ -822,7 +822,8 @@ def nonlinear_roots(f, x0, jac=None, tol=None, verbose=False, maxiter=200, use_s
         init_iter = res.nfev + res.njev
         x = D.ar_numpy.reshape(res.x, (xdim, 1))
         F = D.ar_numpy.reshape(res.fun, fshape)
-        success = res.success or ("no futher improvement" in res.message and D.ar_numpy.linalg.norm(res.fun) <= D.tol_epsilon(x0.dtype))
+        # MINPACK also stops, without its convergence flag, when it cannot improve on a residual that is already at rounding level
+        success = res.success or D.ar_numpy.linalg.norm(res.fun) <= D.tol_epsilon(x0.dtype)
         # MINPACK stops on the size of the step, only a residual at the level of the tolerance certifies a solution
         success = success and D.ar_numpy.linalg.norm(res.fun) <= tol * (xdim + D.ar_numpy.linalg.norm(res.x))
         if success:
